@@ -633,13 +633,32 @@ def holds(spec, c, P):
                             res = B
             return res
         if k == "ScheduleNTasksInTimeIntervals":
-            cnt = 0
+            lo_cnt = hi_cnt = 0
             for n in c["tasks"]:
                 x = tk[n]
                 if x["scheduled"] and any(x["start"] >= lo and x["end"] <= hi for lo, hi in c["intervals"]):
-                    cnt += 1
+                    hi_cnt += 1
+                    # a zero-length task sitting on an interval bound is inside and outside at once
+                    if not (x["start"] == x["end"] and all(
+                            not (lo < x["start"] < hi) for lo, hi in c["intervals"])):
+                        lo_cnt += 1
             m, nn = c.get("mode") or "exact", c["n"]
-            return _b({"exact": cnt == nn, "min": cnt >= nn, "max": cnt <= nn}[m])
+            oks = [{"exact": v == nn, "min": v >= nn, "max": v <= nn}[m] for v in range(lo_cnt, hi_cnt + 1)]
+            if not any(oks):
+                return F
+            if not all(oks):
+                return B
+            # a task that overlaps an interval without lying inside any: the statement counts
+            # tasks "lying inside"; the repository's tests expect such tasks to be excluded
+            for n in c["tasks"]:
+                x = tk[n]
+                if not x["scheduled"]:
+                    continue
+                inside = any(x["start"] >= lo and x["end"] <= hi for lo, hi in c["intervals"])
+                touch = any(x["start"] < hi and x["end"] > lo for lo, hi in c["intervals"])
+                if touch and not inside:
+                    return B
+            return T
         if k == "OptionalTaskForceSchedule":
             return _b(tk[c["task"]]["scheduled"] == c["value"])
         if k == "OptionalTaskConditionSchedule":
@@ -1220,6 +1239,37 @@ def c06_inert(spec, P, S, rep):
         ok = (pos == want) and (lv[-1] == r["levels"][-1] if lv else True)
         rep.add("C06.inert.buffer", T if ok else F, buffer=b["name"], got=[lv, tm],
                 want=[r["levels"], r["times"]], unscheduled=[c["task"] for c in uns])
+
+
+    # indicators / objective indicators: an unscheduled task contributes nothing
+    names = S.get("ind_names", {})
+    for i in spec.get("indicators", []):
+        if i["kind"] not in ("Tardiness", "Earliness", "NbTardy", "MaxLateness"):
+            continue
+        tl = i.get("tasks") or [t["name"] for t in spec["tasks"]]
+        if all(P["tasks"][n]["scheduled"] for n in tl):
+            continue
+        nm = names.get(i["id"])
+        if nm not in S["indicators"]:
+            continue
+        want = indicator_value(spec, i, P)
+        if want is None:
+            rep.add("C06.inert.indicator", B, id=i["id"])
+            continue
+        lo, hi = (want, want) if not isinstance(want, tuple) else want
+        got = S["indicators"][nm]
+        rep.add("C06.inert.indicator", T if lo - 1 < got < hi + 1 else F, kind=i["kind"], got=got,
+                want=[lo, hi], unscheduled=[n for n in tl if not P["tasks"][n]["scheduled"]])
+    for o in spec.get("objectives", []):
+        nm, want = objective_indicator_value(spec, o, P)
+        if nm is None or nm not in S["indicators"] or want is None:
+            continue
+        tl = o.get("tasks") or [t["name"] for t in spec["tasks"]]
+        if all(P["tasks"][n]["scheduled"] for n in tl):
+            continue
+        got = S["indicators"][nm]
+        rep.add("C06.inert.objective", T if got == want else F, kind=o["kind"], got=got, want=want,
+                unscheduled=[n for n in tl if not P["tasks"][n]["scheduled"]])
 
 
 # ---------------------------------------------------------------------------
